@@ -454,9 +454,9 @@ def check(run):
              "backward returns at once; shape setter is a plain store", floor=10)
     run.rule("R15.6", "entry values of the three scopes, the process-wide setters and the public singletons", floor=8)
     run.rule("R15.5", "behaviour-deciding conditions read the switch live; stale `from ... import` sites only gate caching", floor=6)
-    r15_1(run)
-    r15_2(run)
-    r15_3(run)
-    r15_4(run)
-    r15_5(run)
-    r15_6(run)
+    run.do(r15_1)
+    run.do(r15_2)
+    run.do(r15_3)
+    run.do(r15_4)
+    run.do(r15_5)
+    run.do(r15_6)
